@@ -196,3 +196,46 @@ class PbAbsolute(FrameOnly):
 class PbSign(FrameOnly):
     qual = A('_pb_sign')
     def oracle(self, inp, scal, cfg): return {'out': list(inp['out'])}
+
+
+@register
+class PbPowReal(Contract):
+    """y = x**r:  xbar' = xbar + ybar (*) (r x^(r-1)).  Integer exponents r >= 1 use the repeated product x^(*(r-1)); every other exponent
+    uses r * y / x (series quotient), as the code does.  r = 0 leaves xbar unchanged."""
+    qual = A('_pb_pow_real'); arrays = ('ybar_data', 'x_data', 'y_data', 'out'); scalars = {'r': 'real'}; modifies = ('out',); returns = 'any'
+    cfgs = {'int0': {'r': 0}, 'int1': {'r': 1}, 'int2': {'r': 2}, 'int3': {'r': 3}, 'int_ge4': {'r': 'int'}, 'real': {'r': 'real'}, 'int_neg': {'r': 'int'}}
+    property_ids = ('C03', 'C06', 'C14')
+    dataflow = True; timeout_ms = 6000; cex_D = ()
+    def cfg_assumptions(self, c, cfg):
+        r = scalar_of(c, 'r')
+        return [r.t >= 4] if cfg == 'int_ge4' else ([r.t < 0] if cfg == 'int_neg' else [])
+    def requires(self, c):
+        cfg = self._cfgname(c)
+        return [c.pre['x_data'][0] != 0] if cfg in ('real', 'int_neg') else []
+    def _cfgname(self, c):
+        from vc.contract import cfgname_holder
+        r = scalar_of(c, 'r')
+        if isinstance(r, IntV):
+            v = z3.simplify(r.t)
+            if z3.is_int_value(v): return {0: 'int0', 1: 'int1', 2: 'int2', 3: 'int3'}.get(v.as_long(), 'int_ge4' if v.as_long() >= 4 else 'int_neg')
+            return 'int_ge4' if c.ex.entails(r.t >= 4) is True else 'int_neg'
+        return 'real'
+    def ensures(self, c):
+        p = c.pre; o0 = p['out']; o = c.cur('out'); x = p['x_data']; r = scalar_of(c, 'r'); cfg = self._cfgname(c)
+        if cfg == 'int0': return [("r = 0: xbar unchanged", c.forall(0, c.D, lambda j: o[j] == o0[j]))]
+        if cfg in ('real', 'int_neg'):
+            rt = toR(r.t); g = lam(lambda i: S.QUOT(p['y_data'], x, i))
+            return [("xbar' = xbar + r * (ybar (*) (y / x))", c.forall(0, c.D, lambda j: o[j] == o0[j] + rt * S.CONV(p['ybar_data'], g, j)))]
+        rt = r.t
+        g = lam(lambda i: toR(rt) * S.POWN(x, rt - 1, i))
+        return [("xbar' = xbar + ybar (*) (r x^(*(r-1)))", c.forall(0, c.D, lambda j: o[j] == o0[j] + S.CONV(p['ybar_data'], g, j)))]
+    def native_scalars(self, cfg, rng):
+        self._cfg = cfg
+        return {'r': {'real': rng.choice([2.5, 0.5, -1.5]), 'int0': 0, 'int1': 1, 'int2': 2, 'int3': 3, 'int_ge4': rng.choice([4, 5, 8, 17]), 'int_neg': rng.choice([-1, -2, -3])}[cfg]}
+    def sample_x0(self, name, rng): return round(rng.uniform(0.3, 0.9) * 16) / 16
+    def oracle(self, inp, scal, cfg):
+        r = scal['r']; x = inp['x_data']
+        if cfg == 'int0': return {'out': list(inp['out'])}
+        if cfg in ('real', 'int_neg'): g = SI.scale(SI.quot(inp['y_data'], x), r)
+        else: g = SI.scale(SI.pown(x, r - 1), r)
+        return {'out': SI.add(inp['out'], SI.conv(inp['ybar_data'], g))}
